@@ -1,6 +1,7 @@
 package harness
 
 import (
+	"bytes"
 	"errors"
 	"fmt"
 	"io"
@@ -10,6 +11,7 @@ import (
 	"sort"
 	"strings"
 	"syscall"
+	"testing/iotest"
 )
 
 // ---------------------------------------------------------------------------
@@ -127,4 +129,42 @@ func tempLogState() (fds []string, files []string) {
 	tmp, _ := filepath.Glob(filepath.Join(os.TempDir(), "column_*.log"))
 	sort.Strings(tmp)
 	return fds, tmp
+}
+
+// patternReader hands out its data in pieces of 1, 2, 3, 5, 8, 13, 1, ... bytes.
+type patternReader struct {
+	data []byte
+	i    int
+}
+
+func (p *patternReader) Read(dst []byte) (int, error) {
+	if len(p.data) == 0 {
+		return 0, io.EOF
+	}
+	n := []int{1, 2, 3, 5, 8, 13}[p.i%6]
+	p.i++
+	if n > len(dst) {
+		n = len(dst)
+	}
+	if n > len(p.data) {
+		n = len(p.data)
+	}
+	copy(dst, p.data[:n])
+	p.data = p.data[n:]
+	return n, nil
+}
+
+// deliver wraps encoded bytes in one of four legal io.Readers (chosen by the size and the variant,
+// so that a case stays a pure function of its inputs): all at once, one byte per Read, pieces of a
+// fixed pattern, or half of what is asked with the final data arriving together with io.EOF.
+func deliver(b []byte, variant int) io.Reader {
+	switch (len(b) + variant) % 4 {
+	case 1:
+		return iotest.OneByteReader(bytes.NewReader(b))
+	case 2:
+		return &patternReader{data: b}
+	case 3:
+		return iotest.DataErrReader(iotest.HalfReader(bytes.NewReader(b)))
+	}
+	return bytes.NewReader(b)
 }
